@@ -98,6 +98,7 @@ ViewClause(o) ==
     ELSE IF o.itemPast # "" \/ o.itemBefore # "" THEN "ItemPastEndEmpty"
     ELSE IF o.itemsNeg # Reverse(o.keys) THEN "NegativeIndexCountsFromTheEnd"
     ELSE IF \E i \in 1..Len(o.probes) : o.probes[i].has # (Eff(o.list, Norm(o.probes[i].q)) # 0) THEN "Membership"
+    ELSE IF \E i \in 1..Len(o.probes) : o.probes[i].hasobj # o.probes[i].has \/ ~o.probes[i].hasown THEN "Membership"
     ELSE IF \E i \in 1..Len(o.probes) : o.probes[i].value # EffValue(o.list, Norm(o.probes[i].q)) THEN "EffectiveValue"
     ELSE IF \E i \in 1..Len(o.probes) : o.probes[i].prio # EffPrio(o.list, Norm(o.probes[i].q)) THEN "EffectivePriority"
     ELSE IF \E i \in 1..Len(o.probes) : o.probes[i].attr # EffValue(o.list, Norm(o.probes[i].q)) THEN "AttributeAccess"
